@@ -351,7 +351,9 @@ struct PointIter<'a> {
     flags: Cursor<'a>,
     x_coords: Cursor<'a>,
     y_coords: Cursor<'a>,
-    flag_repeats: u8,
+    // number of points still to be produced from `cur_flags`; a repeat byte
+    // of 255 means 256 points, which does not fit in a u8
+    flag_repeats: u16,
     cur_flags: SimpleGlyphFlags,
     cur_x: i16,
     cur_y: i16,
@@ -386,9 +388,9 @@ impl<'a> PointIter<'a> {
             self.flag_repeats = self
                 .cur_flags
                 .contains(SimpleGlyphFlags::REPEAT_FLAG)
-                .then(|| self.flags.read().ok())
+                .then(|| self.flags.read::<u8>().ok())
                 .flatten()
-                .unwrap_or(0)
+                .unwrap_or(0) as u16
                 + 1;
         }
         self.flag_repeats -= 1;
@@ -888,6 +890,21 @@ mod tests {
                 (10, 95, true),
             ]
         );
+    }
+
+    #[test]
+    fn point_iter_flag_repeat_255() {
+        // one contour of 300 on-curve points at the origin: a flag with a
+        // repeat count of 255 (256 points) followed by one with a count of 43
+        let mut data = vec![0u8, 1, 0, 0, 0, 0, 0, 0, 0, 0];
+        data.extend_from_slice(&299u16.to_be_bytes());
+        data.extend_from_slice(&0u16.to_be_bytes());
+        data.extend_from_slice(&[0x39, 255, 0x39, 43]);
+        let glyph = SimpleGlyph::read(FontData::new(&data)).unwrap();
+        assert_eq!(glyph.num_points(), 300);
+        let points = glyph.points().collect::<Vec<_>>();
+        assert_eq!(points.len(), 300);
+        assert!(points.iter().all(|pt| *pt == CurvePoint::on_curve(0, 0)));
     }
 
     // Test helper to enumerate all TrueType glyphs in the given font
